@@ -309,9 +309,68 @@ func main() {
 		})
 	}
 
+	// Is the spending end-blocker's division guarded?  Pattern looked for in x/spending/keeper EndBlocker:
+	//   d := <expr> ; if !d.IsPositive() { continue } ... .Quo(d)
+	guarded, foundEnd := false, false
+	for _, f := range all {
+		if f.id() != "x/spending/keeper.Keeper.EndBlocker" {
+			continue
+		}
+		foundEnd = true
+		guardedVars := map[string]token.Pos{}
+		ast.Inspect(f.decl.Body, func(n ast.Node) bool {
+			is, ok := n.(*ast.IfStmt)
+			if !ok || is.Init != nil || is.Else != nil || len(is.Body.List) != 1 {
+				return true
+			}
+			br, ok := is.Body.List[0].(*ast.BranchStmt)
+			if !ok || br.Tok != token.CONTINUE {
+				return true
+			}
+			un, ok := is.Cond.(*ast.UnaryExpr)
+			if !ok || un.Op != token.NOT {
+				return true
+			}
+			call, ok := un.X.(*ast.CallExpr)
+			if !ok || len(call.Args) != 0 {
+				return true
+			}
+			sel, ok := call.Fun.(*ast.SelectorExpr)
+			if !ok || sel.Sel.Name != "IsPositive" {
+				return true
+			}
+			if id, ok := sel.X.(*ast.Ident); ok {
+				guardedVars[id.Name] = is.End()
+			}
+			return true
+		})
+		nquo, nguarded := 0, 0
+		ast.Inspect(f.decl.Body, func(n ast.Node) bool {
+			call, ok := n.(*ast.CallExpr)
+			if !ok {
+				return true
+			}
+			sel, ok := call.Fun.(*ast.SelectorExpr)
+			if !ok || sel.Sel.Name != "Quo" || len(call.Args) != 1 {
+				return true
+			}
+			nquo++
+			if id, ok := call.Args[0].(*ast.Ident); ok {
+				if end, ok := guardedVars[id.Name]; ok && end < call.Pos() {
+					nguarded++
+				}
+			}
+			return true
+		})
+		guarded = nquo > 0 && nquo == nguarded
+	}
+	if !foundEnd {
+		errs = append(errs, "x/spending/keeper.Keeper.EndBlocker not found")
+	}
+
 	var sb strings.Builder
 	sb.WriteString("(* GENERATED by harness/cmd/gen_panics from the working tree -- do not edit. *)\n")
-	sb.WriteString("From Sekai Require Import Base.Prelude.\nOpen Scope string_scope.\n")
+	sb.WriteString("From Sekai Require Import Base.Prelude.\nLocal Open Scope string_scope.\n")
 	sb.WriteString(fmt.Sprintf("(* %d root functions, %d reached functions (depth %d), %d sites *)\n", len(roots), len(fns), *depth, len(sites)))
 	sb.WriteString("Definition gen_errors : list string := [")
 	for i, e := range errs {
@@ -321,6 +380,7 @@ func main() {
 		sb.WriteString(coqStr(e))
 	}
 	sb.WriteString("].\n")
+	sb.WriteString(fmt.Sprintf("(* x/spending/keeper EndBlocker: every Quo divisor d is preceded by `if !d.IsPositive() { continue }` *)\nDefinition spend_endblock_guarded : bool := %v.\n", guarded))
 	sb.WriteString("Definition roots : list string := [\n")
 	for i, r := range roots {
 		sep := ";"
